@@ -252,6 +252,10 @@ func (in *Interp) rtCall(fn *ssa.Function, a []Value) Value {
 	case "MapOrder":
 		p.mapPerm = in.p.simp(a[0].(BoolV).b).k == BTrue
 		return nil
+	case "Unwind":
+		// the harness states a larger loop bound for repository code (a scenario with a big table)
+		p.unwind = int(num(0))
+		return nil
 	case "Sched":
 		p.sched.budget = int(num(0))
 		p.sched.explore = in.p.simp(a[1].(BoolV).b).k == BTrue
